@@ -115,6 +115,16 @@ func c14SplitUnder(under string) (string, map[int]bool) {
 
 func c14NewEvents(kind string, n int, fc ftdc.Collector) events.Collector {
 	switch kind {
+	// the remaining constructors at the parameter values where they are deterministic: an interval collector whose
+	// interval is zero and a random-sampling collector at more than 100 percent write every event with its running
+	// totals (the cumulative collector's behaviour); an interval collector with a very long interval writes the first
+	// event only (the sampling collector's behaviour at a rate beyond any sequence length)
+	case "cum@ival0":
+		return events.NewIntervalCollector(fc, 0)
+	case "cum@rand101":
+		return events.NewRandomSamplingCollector(fc, true, 101)
+	case "samp@ivalmax":
+		return events.NewIntervalCollector(fc, 1000*time.Hour)
 	case "cum":
 		return events.NewBasicCollector(fc)
 	case "samp":
@@ -304,6 +314,14 @@ func (r *rng) c14Case() c14case {
 	c := c14case{kind: c14Kinds[r.intn(3)], n: 1, under: c14Unders[r.intn(len(c14Unders))]}
 	if c.kind == "samp" {
 		c.n = 1 + r.intn(5)
+	}
+	switch r.intn(12) {
+	case 0:
+		c.kind, c.n = "cum@ival0", 1
+	case 1:
+		c.kind, c.n = "cum@rand101", 1
+	case 2:
+		c.kind, c.n = "samp@ivalmax", 1<<62
 	}
 	c.chunk = 1 + r.intn(6)
 	if strings.HasPrefix(c.under, "base") {
